@@ -109,7 +109,15 @@ class SchedScenario(Scenario):
     # -------------------------------------------------------------- faults
     def externals(self):
         out = []
-        if self.crash is not None and not env.W.extra['crashed']:
+        captured = None
+        if self.early_ticks:
+            # the *-slow scenarios look at what happens around a capture:
+            # crash and early tick are offered while a row is captured
+            from mc.wfscn import cmd_rows
+            captured = cmd_rows("select count(*) from scheduled_jobs_v2 "
+                                "where captured_at is not null") > 0
+        if self.crash is not None and not env.W.extra['crashed'] and \
+                captured is not False:
             d = env.SCHEDULERS[self.crash]
 
             def do():
@@ -118,7 +126,7 @@ class SchedScenario(Scenario):
             c = env.Choice('X:crash:%s' % d.name, 'ext', do, 10 ** 9 + 1,
                            'crash of scheduler instance %s' % d.name)
             out.append(c)
-        if env.W.extra['early_ticks'] < self.early_ticks and \
+        if captured and env.W.extra['early_ticks'] < self.early_ticks and \
                 env.W.clock + 1 <= self.horizon_clock and \
                 env.enabled_choices():
             t = env.W.clock + 1
